@@ -25,6 +25,7 @@ Definition dec_val (e : sexp) : option val :=
   match e with
   | Atom _ => if atom_is "null" e then Some VNull else if atom_is "true" e then Some (VBool true)
               else if atom_is "false" e then Some (VBool false) else None
+  | SList [t] => if atom_is "na" t then Some (VArr 0 0 0 0) else None
   | SList [t; Atom x] =>
       if atom_is "i" t then option_map VNum (parse_Z x)
       else if atom_is "s" t then option_map VStr (parse_hexs x)
@@ -181,6 +182,16 @@ Definition owned_variant : bool := delete_empty_owned.
 
 Definition native (name : sexp) (args : list arg) : option (prog val) :=
   let is s := atom_is s name in
+  if is "delpaths" then
+    match args with
+    | AV a :: ps =>
+        match fold_right (fun x acc => match x, acc with AP p, Some l => Some (p :: l) | _, _ => None end) (Some []) ps with
+        | Some ps => Some (delpaths1 owned_variant a ps)
+        | None => None
+        end
+    | _ => None
+    end
+  else
   match args with
   | [AV a] =>
       if is "add" then Some (func_add grow_model a)
@@ -206,13 +217,6 @@ Definition native (name : sexp) (args : list arg) : option (prog val) :=
       else if is "object_dup" then Some (op_object [(codes "a", a); (codes "a", b)])
       else None
   | [AV a; AV e; AV s] => if is "slice" then Some (func_slice a e s) else None
-  | AV a :: ps =>
-      if is "delpaths" then
-        match fold_right (fun x acc => match x, acc with AP p, Some l => Some (p :: l) | _, _ => None end) (Some []) ps with
-        | Some ps => Some (delpaths1 owned_variant a ps)
-        | None => None
-        end
-      else None
   | _ => None
   end.
 
